@@ -12,7 +12,7 @@ def classes(with_pair_dtor):
     leaf = dict(name="Leaf", base=None, fields=[(False, False, "int", "v", None)],
                 ctors=[([("int", "v")], None, [("expr", ("fset", T, "v", V("v")))], False)],
                 meths=[("plus", [("int", "k")], "int", [("ret", ("bin", "+", ("fld", T, "v"), V("k")))], False, "")],
-                dtor=[("echo", ("bin", "+", S("~Leaf "), ("fld", T, "v")))])
+                dtor=[("echo", ("bin", "+", S("~Leaf "), ("fld", T, "v"))), ("echo", S("~Leaf done"))])
     node = dict(name="Node", base=None, fields=[(False, False, "int", "v", None), (False, False, ("cls", "Node"), "next", None)],
                 ctors=[([("int", "v")], None, [("expr", ("fset", T, "v", V("v")))], False)],
                 meths=[("sum", [], "int", [("if", ("bin", "==", ("fld", T, "next"), ("null",)), ("block", [("ret", ("fld", T, "v"))]), None),
@@ -48,7 +48,11 @@ def functions():
                ("if", ("bin", ">", V("n"), I(1)), ("block", [("expr", ("fset", V("head"), "next", ("call", "chain", [("bin", "-", V("n"), I(1)), V("burst")])))]), None),
                ("decl", False, "int", "c", ("call", "churn", [V("burst")])),
                ("ret", V("head"))])
-    return [churn, mk, show, chainf]
+    peek = ("peek", "int", [("int", "v"), ("int", "burst")],
+            [("decl", False, ("cls", "Leaf"), "x", ("new", "Leaf", [V("v")])),
+             ("decl", False, "int", "c", ("call", "churn", [V("burst")])),
+             ("ret", ("bin", "+", ("fld", V("x"), "v"), I(1)))])
+    return [churn, mk, show, chainf, peek]
 
 
 def gen(rng):
@@ -93,8 +97,10 @@ def gen(rng):
                      ("echo", ("mcall", ("sfld", "Holder", "keep"), "sum", [])),
                      ("expr", ("sfset", "Holder", "keep", ("null",))),
                      ("echo", S("static dropped"))]
-        elif k < 0.9:
+        elif k < 0.86:
             body.append(("echo", ("mcall", ("new", "Leaf", [I(rng.randint(1, 9))]), "plus", [("call", "churn", [burst()])])))
+        elif k < 0.92:
+            body.append(("echo", ("call", "peek", [I(rng.randint(1, 9)), burst()])))
         else:
             x = fresh("p")
             body += [("decl", False, ("cls", "Pair"), x, ("new", "Pair", [("call", "mk", [I(rng.randint(1, 9)), burst()]), ("new", "Leaf", [I(rng.randint(1, 9))])])),
